@@ -3,6 +3,10 @@
 use minicbor::{CborLen, Decode, Decoder, Encode};
 use serde_json::{json, Value};
 
+/// optional fields spelled through a type alias (the derive macros see only the alias)
+pub type OptU8 = Option<u8>;
+pub type OptString = Option<String>;
+
 pub trait Dv: Sized {
     fn from_json(v: &Value) -> Self;
     fn to_json(&self) -> Value;
